@@ -41,7 +41,7 @@ func init() {
 			var bs []core.Batch
 			for s := 0; s < tierPick(tier, 8, 32); s++ {
 				bs = append(bs, core.Batch{Name: fmt.Sprintf("dispatch-%d", s), TimeoutS: 600,
-					Params: core.Params(c05Params{Kind: "dispatch", Shard: s, N: tierPick(tier, 40, 800)})})
+					Params: core.Params(c05Params{Kind: "dispatch", Shard: s, N: tierPick(tier, 100, 800)})})
 			}
 			for s := 0; s < tierPick(tier, 2, 8); s++ {
 				bs = append(bs, core.Batch{Name: fmt.Sprintf("fields-%d", s), TimeoutS: 600,
